@@ -181,13 +181,22 @@ func (s *apkSigner) Verify(inz *zipslicer.Directory) (*signers.Signature, error)
 		return nil, errors.New("no digests in APK signed data block")
 	}
 	if inz != nil {
-		hashes := make([]crypto.Hash, len(signedData.Digests))
+		// digest the file once per distinct hash function, not once per record
+		var hashes []crypto.Hash
+		which := make([]int, len(signedData.Digests))
+		seen := make(map[crypto.Hash]int)
 		for i, digest := range signedData.Digests {
 			st, err := sigTypeByID(digest.ID)
 			if err != nil {
 				return nil, err
 			}
-			hashes[i] = st.hash
+			j, ok := seen[st.hash]
+			if !ok {
+				j = len(hashes)
+				seen[st.hash] = j
+				hashes = append(hashes, st.hash)
+			}
+			which[i] = j
 		}
 		hasher := newMerkleHasher(hashes)
 		for _, f := range inz.File {
@@ -200,7 +209,7 @@ func (s *apkSigner) Verify(inz *zipslicer.Directory) (*signers.Signature, error)
 			return nil, err
 		}
 		for i, digest := range signedData.Digests {
-			if !hmac.Equal(digest.Value, digests[i]) {
+			if !hmac.Equal(digest.Value, digests[which[i]]) {
 				return nil, fmt.Errorf("digest mismatch for algorithm 0x%04x", digest.ID)
 			}
 		}
